@@ -51,7 +51,8 @@ MANIFEST = {
             'disjointness, bounds by requested nodes; then a pristine forked '
             'process with the batch environment removed creates the RM again '
             'from the registry and its info must be equal.'
-            '  PBSPro jobs whose exec_vnode chunks have different sizes: the pilot refuses to start, or every offered node has the one node size it announces (cores_per_node) and no more cores than its vnode.',
+            '  PBSPro jobs whose exec_vnode chunks have different sizes: the pilot refuses to start, or every offered node has the one node size it announces (cores_per_node) and no more cores than its vnode.'
+            '  The platform config carries the physical core count, the agent config the hardware thread count (as the launcher writes them).',
     'note': 'in-memory ru.zmq.RegistryClient and a fake rc.process.Process '
             '(ssh probe) are the only substitutions; launch methods are FORK '
             'only; sampled, not enumerated.'}
